@@ -82,7 +82,7 @@ def _cases(tier, seed):
         cs.append({'scen': 'tt_binop', 's': {'op': 'mul', 'N1': [2, 3, 2], 'R1': [1, 2, 2, 1], 'N2': [3, 1], 'R2': [1, 2, 1], 'dtype': dt}})
         cs.append({'scen': 'tt_binop', 's': {'op': 'add', 'N1': [2, 3, 2], 'R1': [1, 2, 2, 1], 'N2': [3, 1], 'R2': [1, 2, 1], 'dtype': dt}})
     # ---- scalar operations
-    structs = [([3], [1, 1]), ([2, 3], [1, 2, 1]), ([2, 1, 3], [1, 2, 3, 1]), ([1, 1], [1, 2, 1])]
+    structs = [([3], [1, 1]), ([2, 3], [1, 2, 1]), ([2, 1, 3], [1, 2, 3, 1]), ([1, 1], [1, 2, 1]), ([2, 3], [1, 1, 1]), ([2, 2, 3], [1, 2, 1, 1]), ([2, 2, 3], [1, 1, 2, 1])]
     if thorough:
         structs += [([2, 3, 2, 2], [1, 2, 3, 2, 1]), ([1], [1, 1]), ([2, 2, 1, 2, 2], [1, 2, 2, 2, 2, 1])]
     for N, R in structs:
